@@ -9,11 +9,14 @@ package db
 // without a row after the old one was removed. writesOutsideTx counts statements issued through anything else.
 //@ ghost var writesOutsideTx int
 
+// the row written for a certificate carries the header's identity, verdict, range and roots, field by field
 //@ func convertCertificateToCertificateInfo
-//@   trusted
+//@   props C13 C02
+//@   requires c != nil
 //@   modifies nothing
-//@   ensures result1 != nil ==> result0 == nil
-//@   ensures result1 == nil ==> result0 != nil && c.Header != nil && result0.Height == c.Header.Height
+//@   ensures[no-header-refused] c.Header == nil ==> result1 != nil
+//@   ensures[error-means-nothing] result1 != nil ==> result0 == nil
+//@   ensures[row-is-the-header] result1 == nil ==> result0 != nil && fresh(result0) && c.Header != nil && result0.Height == c.Header.Height && result0.CertificateID == c.Header.CertificateID && result0.RetryCount == c.Header.RetryCount && result0.PreviousLocalExitRoot == c.Header.PreviousLocalExitRoot && result0.NewLocalExitRoot == c.Header.NewLocalExitRoot && result0.FromBlock == c.Header.FromBlock && result0.ToBlock == c.Header.ToBlock && result0.Status == c.Header.Status && result0.CreatedAt == c.Header.CreatedAt && result0.FinalizedL1InfoTreeRoot == c.Header.FinalizedL1InfoTreeRoot && result0.L1InfoTreeLeafCount == c.Header.L1InfoTreeLeafCount && result0.CertType == c.Header.CertType && result0.AggchainProof == c.AggchainProof && result0.SignedCertificate == c.SignedCertificate
 
 //@ func getCertificateByHeight
 //@   trusted
@@ -28,8 +31,14 @@ package db
 //@   ensures writesOutsideTx == old(writesOutsideTx) + ite(tx == lastTx && txState(lastTx) == 0, 0, 1)
 //@   ensures stmtFail == old(stmtFail) + ite(result == nil, 0, 1)
 
+// insertedRows counts the rows inserted into certificate_info, lastInsertedRow is the last one
+//@ ghost var insertedRows int
+//@ ghost var lastInsertedRow *certificateInfo
 //@ extern github.com/russross/meddler.Insert@db.(*AggSenderSQLStorage).SaveLastSentCertificate (db, table, src)
-//@   modifies writesOutsideTx, stmtFail
+//@   requires typeIs(src, *certificateInfo)
+//@   modifies writesOutsideTx, stmtFail, insertedRows, lastInsertedRow
+//@   ensures result == nil ==> insertedRows == old(insertedRows) + 1 && lastInsertedRow == cast(src, *certificateInfo)
+//@   ensures result != nil ==> insertedRows == old(insertedRows) && lastInsertedRow == old(lastInsertedRow)
 //@   ensures writesOutsideTx == old(writesOutsideTx) + ite(db == lastTx && txState(lastTx) == 0, 0, 1)
 //@   ensures stmtFail == old(stmtFail) + ite(result == nil, 0, 1)
 
@@ -37,7 +46,9 @@ package db
 //@   props C13 C02
 //@   requires a != nil && a.db != nil && a.logger != nil
 //@   requires lastTx < heapTop
-//@   modifies heap, lastTx, writesOutsideTx, stmtFail
+//@   modifies heap, lastTx, writesOutsideTx, stmtFail, insertedRows, lastInsertedRow
+//@   ensures[success-means-the-certificates-row-was-written] result == nil ==> insertedRows == old(insertedRows) + 1 && lastInsertedRow != nil && certificate.Header != nil && lastInsertedRow.Height == certificate.Header.Height && lastInsertedRow.CertificateID == certificate.Header.CertificateID && lastInsertedRow.Status == certificate.Header.Status && lastInsertedRow.RetryCount == certificate.Header.RetryCount && lastInsertedRow.FromBlock == certificate.Header.FromBlock && lastInsertedRow.ToBlock == certificate.Header.ToBlock && lastInsertedRow.NewLocalExitRoot == certificate.Header.NewLocalExitRoot
+//@   ensures[at-most-one-row] insertedRows <= old(insertedRows) + 1
 //@   ensures[every-statement-inside-the-transaction] writesOutsideTx == old(writesOutsideTx)
 //@   ensures[all-or-nothing] lastTx != old(lastTx) ==> ((result == nil ==> txState(lastTx) == 1) && (result != nil ==> txState(lastTx) == 2))
 //@   ensures[no-transaction-no-success] lastTx == old(lastTx) ==> result != nil
